@@ -31,6 +31,25 @@ func sliceFromArray(arrValue reflect.Value) reflect.Value {
 	return sliceValue
 }
 
+// decodeArrayViaSlice decodes the elements of an array of objects like a slice: into a fresh, addressable slice that
+// is copied back into the array afterwards (the slice returned by sliceFromArray is neither addressable nor connected
+// to the array).
+func decodeArrayViaSlice(arrValue reflect.Value, decodeSlice func(sliceValue reflect.Value, sliceValueType reflect.Type) error) error {
+	sliceValueType := reflect.SliceOf(arrValue.Type().Elem())
+	sliceValue := reflect.New(sliceValueType).Elem()
+
+	if err := decodeSlice(sliceValue, sliceValueType); err != nil {
+		return err
+	}
+
+	if sliceValue.Len() != arrValue.Len() {
+		return ierrors.Errorf("can't decode %d elements into an array of length %d", sliceValue.Len(), arrValue.Len())
+	}
+	fillArrayFromSlice(arrValue, sliceValue)
+
+	return nil
+}
+
 func fillArrayFromSlice(arrayValue, sliceValue reflect.Value) {
 	for i := range sliceValue.Len() {
 		arrayValue.Index(i).Set(sliceValue.Index(i))
